@@ -164,8 +164,21 @@ def rule_map_contents(ck: Check, repo: Repo) -> None:
                 tgt = n
             if tgt is not None and repo.enclosing_function(n) is fn or (tgt is not None and n in ast.walk(fn) and repo.enclosing_function(n) is None):
                 writers.append((q, ast.unparse(tgt)))
+    # a writer that is a method the confirmed tree does not have, called from exactly one known method of the same class, is that
+    # method's code moved out (`self._register_license_ref(identifier, path)`): the write is attributed to the caller
+    from ..canon import ref_table as _rt
+    _known = set(_rt().get("__functions__", []))
+    moved: dict[str, str] = {}
+    for i, (wq, wt) in enumerate(list(writers)):
+        if _known and wq not in _known and wq.rsplit(".", 1)[0] in repo.classes:
+            cls_q, meth = wq.rsplit(".", 1)
+            callers = sorted({q2 for q2, f2 in repo.functions.items() if q2 != wq and any(
+                isinstance(c, ast.Call) and isinstance(c.func, ast.Attribute) and c.func.attr == meth for c in ast.walk(f2))})
+            if len(callers) == 1 and callers[0].rsplit(".", 1)[0] == cls_q and callers[0] in _known:
+                writers[i] = (callers[0], wt)
+                moved[meth] = wq
     writers = sorted(set(writers))
-    r.instance("writers", {"writers": writers})
+    r.instance("writers", {"writers": writers, "moved_into_new_methods": moved})
     expected = [(f"{PJ}._find_licenses", "self.license_map[identifier]")]
     if writers != expected:
         r.violation(f"{PJ}.license_map", "unexpected writer of license_map", f"writers {writers}, expected {expected}")
@@ -180,7 +193,10 @@ def rule_map_contents(ck: Check, repo: Repo) -> None:
     ck.analysed_fn(f"{PJ}._find_licenses")
     guard = None
     for n in ast.walk(fl):
-        if isinstance(n, ast.If) and any(isinstance(s, ast.Assign) and "self.license_map[identifier]" in ast.unparse(s.targets[0])
+        if isinstance(n, ast.If) and any((isinstance(s, ast.Assign) and "self.license_map[identifier]" in ast.unparse(s.targets[0]))
+                                         or (isinstance(s, ast.Expr) and isinstance(s.value, ast.Call) and isinstance(s.value.func, ast.Attribute)
+                                             and s.value.func.attr in moved and ast.unparse(s.value.func.value) == "self"
+                                             and s.value.args and ast.unparse(s.value.args[0]) == "identifier")
                                          for s in n.body):
             guard = n.test
 
